@@ -1440,6 +1440,32 @@ fn case_upsert(ctx: &mut Ctx, case_seed: u64) {
     check_trace_model(ctx, &env, &mut rng, &case);
 }
 
+/// merges in a SORTED index (shaped generator of the C17 harness: deletes, documents without sort
+/// value, disjoint value ranges): every published doc = the never-merged reference doc, the live set
+/// = the sequential replay, and the merged segment is still in index-sort order (what searches that
+/// rely on the index sort read).  Oracle checks only; keys are reported as C04:sorted-merge:*.
+fn case_sorted(ctx: &mut Ctx, case_seed: u64) {
+    let before = ctx.report.violations.len();
+    super::c17::case_for(ctx, case_seed, false);
+    for v in ctx.report.violations[before..].iter_mut() {
+        if let Some(rest) = v.key.strip_prefix("C17:") {
+            v.key = format!("C04:sorted-merge:{rest}");
+        }
+        v.case = case_json("sorted", case_seed, json!({}));
+    }
+    // keep the first few per key, as Report::violation does
+    let mut i = before;
+    while i < ctx.report.violations.len() {
+        let k = ctx.report.violations[i].key.clone();
+        if ctx.report.violations[..i].iter().filter(|v| v.key == k).count() >= 3 {
+            ctx.report.violations.remove(i);
+        } else {
+            i += 1;
+        }
+    }
+    ctx.report.count("sorted:cases");
+}
+
 fn run_case(ctx: &mut Ctx, kind: &str, case_seed: u64, params: &Value) {
     let r = catch_unwind(AssertUnwindSafe(|| match kind {
         "explicit" => case_explicit(ctx, case_seed),
@@ -1454,6 +1480,7 @@ fn run_case(ctx: &mut Ctx, kind: &str, case_seed: u64, params: &Value) {
         "uncommitted" => case_uncommitted(ctx, case_seed),
         "pending" => case_pending(ctx, case_seed),
         "upsert" => case_upsert(ctx, case_seed),
+        "sorted" => case_sorted(ctx, case_seed),
         _ => {}
     }));
     tantivy::verif::set_segment_cut_docs(0);
@@ -1473,6 +1500,7 @@ pub fn run(ctx: &mut Ctx) {
         "Lean dump(mergeModel) = mergeSpec and = real merged segment; total_doc_freq list = real doc_freq list".into(),
         "every published doc = the same doc in a never-merged reference index (stored bytes, norms, fast values, terms/tf/positions)".into(),
         "published doc set after forced schedules = sequential replay".into(),
+        "sorted index: merged segments keep the index-sort order, docs = reference docs, live set = sequential replay (oracle)".into(),
     ];
     if let Some(case) = ctx.replay.clone() {
         let kind = case["kind"].as_str().unwrap_or("").to_string();
@@ -1503,6 +1531,10 @@ pub fn run(ctx: &mut Ctx) {
     for _ in 0..ctx.budget(40, 300) {
         let s = ctx.rng.next_u64();
         run_case(ctx, "upsert", s, &json!({}));
+    }
+    for _ in 0..ctx.budget(60, 600) {
+        let s = ctx.rng.next_u64();
+        run_case(ctx, "sorted", s, &json!({}));
     }
     let p = ctx.report.distribution.get("translation_validation:programs").copied().unwrap_or(0);
     let d = ctx.report.distribution.get("translation_validation:disagreements_checked").copied().unwrap_or(0);
